@@ -237,4 +237,9 @@ def s3(I):
     I.check('asset_order_and_parameters_unchanged', before[:6] == after[:6] and I.values_eq(before[6], after[6]) is True)
     I.check('assets_aligned_with_denoms', [c.get('denom') for c in p.get('assets').e] == list(p.get('asset_denoms').e))
 
+
+# ---------------------------------------------------------------- immutability under withdrawals (the obligation of C02, shared)
+from . import c02 as _c02m   # noqa: E402
+share('C02', 'C16', 'W', lambda n: n == 'S3.withdraw')
+
 from . import stable3   # noqa: E402,F401  (three-asset stableswap accounting obligations registered for this property)
